@@ -1,13 +1,20 @@
 """C20 -- the global validator switch is honoured everywhere and scoped correctly.
 
-Case = the Lean `Attrs.C20.Case`: a class description (api, class-level and per-field on_setattr as lists of
-elementary hooks, per field the length of its validator chain and whether it has a converter), the one callback
-that raises (`fault`), the switch position at the start and a history of operations
-{set_disabled(v), set_run_validators(v), get_disabled, get_run_validators, enter disabled(), exit, exit by
-exception, construct, assign field i, validate(inst)}; plus a harness-only `cfg` the model ignores (slots, how the
-fields are split over an attrs base class, how each validator chain is written, whether the class was defined
-while validators were disabled, whether the context-manager objects were created up front, which exception leaves
-the block, through which namespace the accessors are reached).
+Case = the Lean `Attrs.C20.Case`: the classes of ONE hierarchy (a base class, subclasses that add validated fields
+or re-declare inherited ones, siblings, optionally a plain class in between), each described by its resolved field
+list (api, class-level and per-field on_setattr as lists of elementary hooks, per field the length of its validator
+chain and whether it has a converter), the one callback that raises (`fault`), the switch position at the start and
+a history of operations {set_disabled(v), set_run_validators(v), get_disabled, get_run_validators, enter
+disabled(), exit, exit by exception, construct class k, assign field i of the instance of class k,
+validate(instance of class k)} -- the readers range over instances of several classes within one history, in any
+order; plus harness-only data the model ignores: `hier` (who inherits from whom, which fields are own -- the
+`classes` are derived from it) and `cfg` (slots, how each validator chain is written, whether the classes were
+defined while validators were disabled, whether the context-manager objects were created up front, which exception
+leaves the block, through which namespace the accessors are reached, with-statements or explicit calls).
+
+Classes are created fresh for every case (nothing a reader may memoise on a class survives into another case, so
+replays are exact).  Every validator checks that it is called with the Attribute of the instance's own class and
+that it belongs to that attribute's validator chain; otherwise the event is logged as `validator-foreign`.
 
 The context managers are driven either by explicit `__enter__`/`__exit__` calls (what a `with` statement does) or
 (cfg.realWith) by real `with` statements nested dynamically through recursion, the exceptional exit being a `raise`
@@ -28,16 +35,20 @@ from attr import setters
 import common
 
 ID = "C20"
-RULE = ("cases = class description x faulty validator x start position x operation history; thorough: ALL histories of "
+RULE = ("cases = class hierarchy (1-3 attrs classes: base, subclasses adding/re-declaring validated fields, siblings) x "
+        "faulty validator x start position x operation history whose readers each name the class whose instance they "
+        "work on; sweeps: every reader over the classes of a hierarchy in every order, twice, enabled / after a "
+        "disabled pass; thorough: ALL histories of "
         "length <= 5 over {set_disabled(T/F), set_run_validators(T/F), enter, exit, exit-by-exception, construct, "
         "assign, validate} that never exit with nothing open (closed at the end), from both start positions, each on a "
-        "class from a structured pool; quick: all such histories of length <= 3 plus seeded random histories of length "
+        "hierarchy from a structured pool with seeded reader targets; quick: all such histories of length <= 3 plus seeded random histories of length "
         "<= 12, nesting <= 4, incl. non-bool arguments and the get operations, on random classes; non-trivial = the "
         "history moves or scopes the switch and runs a reader (construct/assign/validate) on a class with a "
         "validator; distinct = distinct JSON case")
 ASSUMPTIONS = [
     "blocks are entered/left LIFO on fresh validators.disabled() objects, through explicit __enter__/__exit__ calls (60%) or real nested with statements (40%)",
     "recording callbacks stand for arbitrary validators/converters/hooks: which ran, in which order, and which one raised is what is compared",
+    "the inheritance relation between the classes of a case is harness-only: the model judges every reader by the resolved field list of the class named (C20_readers_memoryless); all classes of a hierarchy use the same front-end and class-level on_setattr; a plain class in between only for dict classes (K6 concerns slotted ones)",
     "single-threaded use (the switch is documented as not thread-safe)",
     "construction is modelled through the shared initializer model (Model/Init.lean), tied to the code by the C01/C02 correspondence as well",
 ]
@@ -69,9 +80,22 @@ def _hit(kind, field, idx):
         raise common.UserError(f"{kind}.{field}.{idx}")
 
 
+def _in_chain(fn, v):
+    if v is fn:
+        return True
+    return any(_in_chain(fn, m) for m in getattr(v, "_validators", ()))
+
+
 def mk_validator(i):
     def v(inst, a, value):
-        _hit("validator", a.name, i)
+        kind = "validator"
+        try:
+            cur = getattr(attr.fields(type(inst)), a.name)
+            if cur is not a or not _in_chain(v, cur.validator):
+                kind = "validator-foreign"     # somebody else's Attribute / validator was used for this instance
+        except Exception:  # noqa: BLE001
+            kind = "validator-foreign"
+        _hit(kind, a.name, i)
     return v
 
 
@@ -103,8 +127,9 @@ def _on_setattr(hook, bare):
     return {"on_setattr": fns}
 
 
-def _mk_field(f, is_define, style, bare):
+def _mk_field(f, is_define, bare):
     n = f["validators"]
+    style = f.get("style", "list")
     vs = [mk_validator(i) for i in range(n)]
     kw = dict(_on_setattr(f["onSet"], bare))
     if f["conv"]:
@@ -135,44 +160,53 @@ def _mk_field(f, is_define, style, bare):
     return ca
 
 
-_CLASS_CACHE: dict = {}
+def _strip(f):
+    return {k: f[k] for k in ("name", "validators", "conv", "onSet", "style") if k in f}
+
+
+def resolve(hier):
+    """the Lean-side `classes`: for every node its resolved field list (inherited fields that are not re-declared,
+    in the base's order, then the own ones), as attrs collects them along a single-inheritance chain"""
+    out = []
+    for node in hier["nodes"]:
+        own = [_strip(f) for f in node["own"]]
+        names = {f["name"] for f in own}
+        inherited = [] if node["parent"] is None else [f for f in out[node["parent"]]["fields"] if f["name"] not in names]
+        out.append({"isDefine": hier["isDefine"], "clsOnSet": hier["clsOnSet"], "fields": inherited + own})
+    return out
+
+
+def mk_case(hier, fault, start, ops, cfg):
+    return {"classes": resolve(hier), "hier": hier, "fault": fault, "start": start, "ops": ops, "cfg": cfg}
+
+
+_BUILDS = [0]
 
 
 def build(case):
-    cls, cfg = case["cls"], case.get("cfg", {})
-    key = json.dumps([cls, cfg.get("slots"), cfg.get("split", 0), cfg.get("vstyle"), cfg.get("bare", True),
-                      bool(cfg.get("buildDisabled"))], sort_keys=True)
-    got = _CLASS_CACHE.get(key)
-    if got is not None:
-        return got
-    if len(_CLASS_CACHE) > 1500:
-        _CLASS_CACHE.clear()
-        common.purge_linecache()
-    is_define = cls["isDefine"]
-    fields = cls["fields"]
-    styles = cfg.get("vstyle") or []
+    """fresh real classes for every case: [(class, resolved field names)] per node"""
+    hier, cfg = case["hier"], case.get("cfg", {})
+    is_define = hier["isDefine"]
     bare = cfg.get("bare", True)
-    split = max(0, min(cfg.get("split", 0), len(fields)))
     kw = {}
     if cfg.get("slots") is not None:
         kw["slots"] = cfg["slots"]
+    eff_slots = cfg["slots"] if cfg.get("slots") is not None else is_define
     # a one-element class-level chain is passed bare (setters.validate itself), as the model's reading assumes
-    kw.update(_on_setattr(cls["clsOnSet"], True))
+    kw.update(_on_setattr(hier["clsOnSet"], True))
     deco = attrs.define if is_define else attr.s
-
-    def body(part, offset):
-        return {f["name"]: _mk_field(f, is_define, styles[offset + j] if offset + j < len(styles) else "list", bare)
-                for j, f in enumerate(part)}
-
+    _BUILDS[0] += 1
+    if _BUILDS[0] % 2000 == 0:
+        common.purge_linecache()
     attr.set_run_validators(not cfg.get("buildDisabled", False))
-    if split:
-        Base = deco(**kw)(type("Base", (object,), body(fields[:split], 0)))
-    else:
-        Base = object
-    C = deco(**kw)(type("C", (Base,), body(fields[split:], split)))
-    res = (C, [f["name"] for f in fields])
-    _CLASS_CACHE[key] = res
-    return res
+    classes = []
+    for k, node in enumerate(hier["nodes"]):
+        base = object if node["parent"] is None else classes[node["parent"]]
+        if node.get("plain") and node["parent"] is not None and not eff_slots:
+            base = type("Plain%d" % k, (base,), {})
+        ns = {f["name"]: _mk_field(f, is_define, bare) for f in node["own"]}
+        classes.append(deco(**kw)(type("K%d" % k, (base,), ns)))
+    return [(K, [f["name"] for f in c["fields"]]) for K, c in zip(classes, case["classes"])]
 
 
 def _b3(thunk):
@@ -197,10 +231,11 @@ def _mk_exc(kind):
 
 
 def _op(op):
+    """(kind, arguments dict)"""
     if isinstance(op, str):
-        return op, None
+        return op, {}
     (k, v), = op.items()
-    return k, (v.get("a") if "a" in v else v.get("i"))
+    return k, v
 
 
 def observe(case):
@@ -226,18 +261,20 @@ def observe(case):
 def _observe(case, open_cms):
     cfg = case.get("cfg", {})
     try:
-        C, names = build(case)
+        built = build(case)
     finally:
         attr.set_run_validators(True)
     ns = attrs if cfg.get("via") == "attrs" else attr
     V = ns.validators
     get_run, set_run = attr.get_run_validators, attr.set_run_validators
     validate = ns.validate
-    # the instance that assign / validate work on: built without the initializer
-    inst = C.__new__(C)
-    for n in names:
-        object.__setattr__(inst, n, "v." + n)
-    vals = {n: "v." + n for n in names}
+    # the instances that assign / validate work on, one per class: built without the initializer
+    insts = []
+    for K, names in built:
+        inst = K.__new__(K)
+        for n in names:
+            object.__setattr__(inst, n, "v." + n)
+        insts.append(inst)
     f = case.get("fault")
     FAULT[0] = (f["kind"], f["field"], f["idx"]) if f else None
     early = [V.disabled() for _ in case["ops"]] if cfg.get("earlyCm") else None
@@ -266,19 +303,21 @@ def _observe(case, open_cms):
         ret = exc = None
         try:
             if k == "setDisabled":
-                V.set_disabled(ARGS[a])
+                V.set_disabled(ARGS[a["a"]])
             elif k == "setRun":
-                set_run(ARGS[a])
+                set_run(ARGS[a["a"]])
             elif k == "getDisabled":
                 ret = _b3(V.get_disabled)
             elif k == "getRun":
                 ret = _b3(get_run)
             elif k == "construct":
-                C(**vals)
+                K, names = built[a["k"]]
+                K(**{n: "v." + n for n in names})
             elif k == "assign":
-                setattr(inst, names[a], "w." + names[a])
+                names = built[a["k"]][1]
+                setattr(insts[a["k"]], names[a["i"]], "w." + names[a["i"]])
             elif k == "validate":
-                validate(inst)
+                validate(insts[a["k"]])
             else:
                 raise AssertionError(k)
         except AssertionError:
@@ -356,6 +395,9 @@ def _observe(case, open_cms):
 
 
 # ------------------------------------------------------------------------------------------ generators
+READERS = ("construct", "assign", "validate")
+
+
 def _depths(ops):
     d, out = 0, []
     for op in ops:
@@ -370,56 +412,68 @@ def _depths(ops):
     return out
 
 
-def _fld(name, validators=1, conv=False, on_set="unset"):
-    return {"name": name, "validators": validators, "conv": conv, "onSet": on_set}
+def _fld(name, validators=1, conv=False, on_set="unset", style="list"):
+    return {"name": name, "validators": validators, "conv": conv, "onSet": on_set, "style": style}
 
 
-def _cls(is_define, cls_on_set, *fields):
-    return {"isDefine": is_define, "clsOnSet": cls_on_set, "fields": list(fields)}
+def _node(parent, *own, plain=False):
+    return {"parent": parent, "plain": plain, "own": list(own)}
 
 
-V_X0 = {"kind": "validator", "field": "x", "idx": 0}
-V_X1 = {"kind": "validator", "field": "x", "idx": 1}
-V_Y0 = {"kind": "validator", "field": "y", "idx": 0}
+def _hier(is_define, cls_on_set, *nodes):
+    return {"isDefine": is_define, "clsOnSet": cls_on_set, "nodes": list(nodes)}
 
-# (class, faulty callback): field 0 is what the exhaustive histories assign to
+
+def _v(field, idx):
+    return {"kind": "validator", "field": field, "idx": idx}
+
+
+V_CHAIN = chain(["validate"])
+# (hierarchy, faulty callback)
 POOL = [
-    (_cls(False, "unset", _fld("x")), V_X0),                                           # attr.s, no hook
-    (_cls(False, chain(["validate"]), _fld("x")), V_X0),                               # attr.s + setters.validate
-    (_cls(False, "unset", _fld("x", on_set=chain(["validate"]))), V_X0),               # field-level hook
-    (_cls(True, "unset", _fld("x")), V_X0),                                            # define default
-    (_cls(True, "unset", _fld("x", 2, True), _fld("y", 1, True)), None),               # several fields, none fails
-    (_cls(True, "unset", _fld("x", 2, True), _fld("y", 1, True)), V_X1),               # second of an and_ chain fails
-    (_cls(False, chain(["validate"]), _fld("x", 1, True), _fld("y", 2)), V_Y0),        # later field fails
-    (_cls(True, chain(["custom", "validate"]), _fld("x", 1, True)), None),             # custom + validate
-    (_cls(False, chain(["convert", "validate"]), _fld("x", 3, True), _fld("y", 0, True)), None),
-    (_cls(True, "unset", _fld("x", 1, True, "noOp"), _fld("y", 1)), V_Y0),             # NO_OP on the assigned field
-    (_cls(True, "noOp", _fld("x", 1, True, chain(["validate", "custom"])), _fld("y")), V_X0),
-    (_cls(False, chain(["custom"]), _fld("x", 2, True), _fld("y", 1, False, chain(["validate"]))), None),
-    (_cls(False, "unset", _fld("x", 0, True, chain(["convert", "validate"])), _fld("y", 1)), None),  # nothing to validate on x
-    (_cls(True, "unset", _fld("x", 1, False, chain(["validate", "validate"]))), None),
+    (_hier(False, "unset", _node(None, _fld("x"))), _v("x", 0)),                                   # attr.s, no hook
+    (_hier(False, V_CHAIN, _node(None, _fld("x"))), _v("x", 0)),                                   # attr.s + setters.validate
+    (_hier(False, "unset", _node(None, _fld("x", on_set=V_CHAIN))), _v("x", 0)),                   # field-level hook
+    (_hier(True, "unset", _node(None, _fld("x"))), _v("x", 0)),                                    # define default
+    (_hier(True, "unset", _node(None, _fld("x", 2, True), _fld("y", 1, True))), _v("x", 1)),       # and_ chain, 2nd fails
+    (_hier(True, chain(["custom", "validate"]), _node(None, _fld("x", 1, True))), None),
+    (_hier(True, "unset", _node(None, _fld("x", 1, True, "noOp"), _fld("y", 1))), _v("y", 0)),
+    (_hier(True, "unset", _node(None, _fld("x", 1, False, chain(["validate", "validate"])))), None),
+    # base + subclass that adds a validated field
+    (_hier(True, "unset", _node(None, _fld("x", 1, True)), _node(0, _fld("y", 1))), None),
+    (_hier(False, "unset", _node(None, _fld("x")), _node(0, _fld("y", 2))), _v("y", 1)),
+    (_hier(False, V_CHAIN, _node(None, _fld("x")), _node(0, _fld("y"), plain=True)), _v("y", 0)),
+    # base + subclass that re-declares the base's field (more / fewer / no validators)
+    (_hier(True, "unset", _node(None, _fld("x", 1)), _node(0, _fld("x", 2, True))), None),
+    (_hier(False, V_CHAIN, _node(None, _fld("x", 2), _fld("y", 1)), _node(0, _fld("x", 1))), _v("x", 0)),
+    # base, adding sibling, re-declaring sibling
+    (_hier(False, "unset", _node(None, _fld("x")), _node(0, _fld("y")), _node(0, _fld("x", 2))), None),
+    (_hier(True, "unset", _node(None, _fld("x", 1, True)), _node(0, _fld("y", 1, True)), _node(0, _fld("x", 3))), _v("y", 0)),
+    # three levels, the middle one adds nothing validated
+    (_hier(False, chain(["convert", "validate"]), _node(None, _fld("x", 1, True)), _node(0, _fld("y", 0, True)),
+           _node(1, _fld("z", 2), plain=True)), _v("z", 1)),
+    (_hier(True, "unset", _node(None, _fld("x", 2)), _node(0), _node(1, _fld("x", 1), _fld("w", 1))), None),
 ]
+MULTI = [hf for hf in POOL if len(hf[0]["nodes"]) > 1]
 
 ALPHA = [{"setDisabled": {"a": "T"}}, {"setDisabled": {"a": "F"}}, {"setRun": {"a": "T"}}, {"setRun": {"a": "F"}},
-         "enter", "exit", "exitExc", "construct", {"assign": {"i": 0}}, "validate"]
+         "enter", "exit", "exitExc", "construct", "assign", "validate"]
 
 
-def _styles(cls, rng):
-    out = []
-    for f in cls["fields"]:
-        n = f["validators"]
-        if n <= 1:
-            out.append(rng.choice(["single", "single", "list", "and_", "deco"]))
-        else:
-            out.append(rng.choice(["list", "list", "and_", "deco", "nested", "tuple"]))
-    return out
+def _style(n, rng):
+    if n <= 1:
+        return rng.choice(["single", "single", "list", "and_", "deco"])
+    return rng.choice(["list", "list", "and_", "deco", "nested", "tuple"])
 
 
-def _rand_cfg(cls, rng):
+def _restyle(hier, rng):
+    return dict(hier, nodes=[dict(nd, own=[dict(f, style=_style(f["validators"], rng)) for f in nd["own"]])
+                             for nd in hier["nodes"]])
+
+
+def _rand_cfg(rng):
     return {
         "slots": rng.choice([None, None, True, False]),
-        "split": rng.choice([0, 0, 1, 1, 2, 3]),
-        "vstyle": _styles(cls, rng),
         "bare": rng.random() < 0.5,
         "buildDisabled": rng.random() < 0.35,
         "earlyCm": rng.random() < 0.35,
@@ -427,6 +481,26 @@ def _rand_cfg(cls, rng):
         "via": rng.choice(["attr", "attrs"]),
         "realWith": rng.random() < 0.4,
     }
+
+
+def _target(classes, rng, kind):
+    """bind a reader to a class (and field) of the hierarchy"""
+    ks = [k for k, c in enumerate(classes) if kind != "assign" or c["fields"]]
+    if not ks:
+        return None
+    k = rng.choice(ks)
+    if kind == "assign":
+        return {"assign": {"k": k, "i": rng.randrange(len(classes[k]["fields"]))}}
+    return {kind: {"k": k}}
+
+
+def _bind(ops, classes, rng):
+    out = []
+    for op in ops:
+        if op in READERS:
+            op = _target(classes, rng, op) or {"validate": {"k": 0}}
+        out.append(op)
+    return out
 
 
 def _close(ops, rng):
@@ -461,63 +535,118 @@ def _rand_hook(rng, p_unset):
     return chain(rng.choice(CHAINS))
 
 
-def _rand_cls(rng):
-    n = rng.choice([1, 1, 2, 2, 3, 4])
-    names = NAMES[:n] if rng.random() < 0.7 else rng.sample(NAMES, n)
-    fields = [{"name": nm, "validators": rng.choice([0, 1, 1, 1, 2, 3]), "conv": rng.random() < 0.45,
-               "onSet": _rand_hook(rng, 0.6)} for nm in names]
-    cls = {"isDefine": rng.random() < 0.5, "clsOnSet": _rand_hook(rng, 0.45), "fields": fields}
-    cands = [{"kind": "validator", "field": f["name"], "idx": i} for f in fields for i in range(f["validators"])]
+def _rand_field(rng, name):
+    n = rng.choice([0, 1, 1, 1, 2, 3])
+    return {"name": name, "validators": n, "conv": rng.random() < 0.45, "onSet": _rand_hook(rng, 0.6),
+            "style": _style(n, rng)}
+
+
+def _rand_hier(rng):
+    """1-3 attrs classes: chains and forks; subclasses add fields and/or re-declare inherited ones"""
+    n_nodes = rng.choice([1, 2, 2, 2, 3, 3])
+    names = NAMES[:] if rng.random() < 0.7 else rng.sample(NAMES, len(NAMES))
+    nodes, resolved_names, fresh = [], [], 0
+    for k in range(n_nodes):
+        parent = None if k == 0 else rng.randrange(k)
+        own = []
+        if parent is not None:
+            inh = resolved_names[parent]
+            for nm in inh:
+                if rng.random() < 0.3:            # re-declare
+                    own.append(_rand_field(rng, nm))
+        n_new = rng.choice([1, 1, 2]) if k == 0 else rng.choice([0, 1, 1, 2])
+        for _ in range(n_new):
+            if fresh < len(names):
+                own.append(_rand_field(rng, names[fresh]))
+                fresh += 1
+        rng.shuffle(own)
+        own_names = {f["name"] for f in own}
+        resolved_names.append(([] if parent is None else [n for n in resolved_names[parent] if n not in own_names])
+                              + [f["name"] for f in own])
+        nodes.append({"parent": parent, "plain": parent is not None and rng.random() < 0.3, "own": own})
+    hier = {"isDefine": rng.random() < 0.5, "clsOnSet": _rand_hook(rng, 0.45), "nodes": nodes}
+    cands = [_v(f["name"], i) for c in resolve(hier) for f in c["fields"] for i in range(f["validators"])]
     fault = rng.choice(cands) if cands and rng.random() < 0.45 else None
-    return cls, fault
+    return hier, fault
 
 
 def _rand_arg(rng, p_nonbool):
     return rng.choice(NONBOOL) if rng.random() < p_nonbool else rng.choice(["T", "F"])
 
 
-def _rand_ops(rng, cls, max_len, max_depth):
+def _rand_ops(rng, classes, max_len, max_depth):
     n = rng.randint(1, max_len)
     ops, depth = [], 0
-    nf = len(cls["fields"])
     while len(ops) + depth < n:
         r = rng.random()
-        if r < 0.12:
+        if r < 0.10:
             ops.append({"setDisabled": {"a": _rand_arg(rng, 0.12)}})
-        elif r < 0.24:
+        elif r < 0.20:
             ops.append({"setRun": {"a": _rand_arg(rng, 0.35)}})
-        elif r < 0.29:
+        elif r < 0.24:
             ops.append(rng.choice(["getDisabled", "getRun"]))
-        elif r < 0.45:
+        elif r < 0.37:
             if depth < max_depth:
                 ops.append("enter")
                 depth += 1
-        elif r < 0.60:
+        elif r < 0.50:
             if depth > 0:
                 ops.append(rng.choice(["exit", "exitExc"]))
                 depth -= 1
-        elif r < 0.74:
+        elif r < 0.64:
             ops.append("construct")
-        elif r < 0.90:
-            ops.append({"assign": {"i": rng.randrange(nf)}})
+        elif r < 0.80:
+            ops.append("assign")
         else:
             ops.append("validate")
-    return _close(ops, rng)
+    return _bind(_close(ops, rng), classes, rng)
+
+
+def _sweeps(hier, fault, rng):
+    """every reader over the classes of the hierarchy in every order, twice (whatever a first pass leaves behind
+    on a class is met by the second and by the classes after it): enabled; after a pass made while disabled;
+    started disabled and enabled through the legacy setter"""
+    classes = resolve(hier)
+    ks = list(range(len(classes)))
+
+    def reader_ops(kind, k):
+        if kind == "assign":
+            return [{"assign": {"k": k, "i": i}} for i in range(len(classes[k]["fields"]))]
+        return [{kind: {"k": k}}]
+
+    for kind in READERS:
+        for perm in itertools.permutations(ks):
+            once = [o for k in perm for o in reader_ops(kind, k)]
+            if not once:
+                continue
+            rev = [o for k in reversed(perm) for o in reader_ops(kind, k)]
+            for start, ops in ((True, once + once),
+                               (True, ["enter"] + rev + [rng.choice(["exit", "exitExc"])] + once),
+                               (False, rev + [{"setRun": {"a": "T"}}] + once + ["enter"] + once + ["exit"] + once)):
+                yield mk_case(_restyle(hier, rng), fault, start, ops, _rand_cfg(rng))
 
 
 def gen_cases(tier, rng):
     max_len = 3 if tier == "quick" else 5
     # the repaired deviation and its relatives first
-    reg_cls, reg_fault = POOL[1]
-    for ops in (["enter", "exit", "construct"], ["enter", "enter", "exit", "construct", "exit", "construct"],
-                ["enter", "exitExc", {"assign": {"i": 0}}],
-                ["enter", "enter", {"setDisabled": {"a": "F"}}, "exit", "validate", "exit", "validate"]):
+    reg_hier, reg_fault = POOL[1]
+    A0 = {"assign": {"k": 0, "i": 0}}
+    C0, V0 = {"construct": {"k": 0}}, {"validate": {"k": 0}}
+    for ops in (["enter", "exit", C0], ["enter", "enter", "exit", C0, "exit", C0], ["enter", "exitExc", A0],
+                ["enter", "enter", {"setDisabled": {"a": "F"}}, "exit", V0, "exit", V0]):
         for start in (True, False):
-            yield {"cls": reg_cls, "fault": reg_fault, "start": start, "ops": ops, "cfg": _rand_cfg(reg_cls, rng)}
+            yield mk_case(reg_hier, reg_fault, start, ops, _rand_cfg(rng))
     # a class without fields: nothing to run, the switch still moves
-    empty = _cls(False, "unset")
-    yield {"cls": empty, "fault": None, "start": True,
-           "ops": ["enter", "construct", "validate", {"setRun": {"a": "pyNone"}}, "exit"], "cfg": _rand_cfg(empty, rng)}
+    empty = _hier(False, "unset", _node(None))
+    yield mk_case(empty, None, True, ["enter", C0, V0, {"setRun": {"a": "pyNone"}}, "exit"], _rand_cfg(rng))
+    # reader sweeps over the structured hierarchies, then over random ones
+    for hier, fault in MULTI:
+        yield from _sweeps(hier, fault, rng)
+        yield from _sweeps(hier, None, rng)
+    for _ in range(12 if tier == "quick" else 150):
+        hier, fault = _rand_hier(rng)
+        if len(hier["nodes"]) > 1:
+            yield from _sweeps(hier, fault, rng)
     # exhaustive block
     k = 0
     for ops in _enumerate(max_len):
@@ -525,23 +654,33 @@ def gen_cases(tier, rng):
             continue
         for start in (True, False):
             picks = [rng.choice(POOL)] if tier == "quick" else \
-                [POOL[k % len(POOL)], rng.choice(POOL)] if len(ops) <= 4 else [POOL[k % len(POOL)]]
+                [POOL[k % len(POOL)], rng.choice(MULTI)] if len(ops) <= 4 else [POOL[k % len(POOL)]]
             k += 1
-            for cls, fault in picks:
-                yield {"cls": cls, "fault": fault, "start": start, "ops": _close(ops, rng), "cfg": _rand_cfg(cls, rng)}
-    # random block: longer histories, random classes, non-bool arguments, get operations
+            for hier, fault in picks:
+                hier = _restyle(hier, rng)
+                yield mk_case(hier, fault, start, _bind(_close(ops, rng), resolve(hier), rng), _rand_cfg(rng))
+    # random block: longer histories, random hierarchies, non-bool arguments, get operations
     n = 1_000_000 if tier == "quick" else 120_000
     for _ in range(n):
-        cls, fault = _rand_cls(rng) if rng.random() < 0.8 else rng.choice(POOL)
-        ops = _rand_ops(rng, cls, 12, 4)
-        yield {"cls": cls, "fault": fault, "start": rng.random() < 0.6, "ops": ops, "cfg": _rand_cfg(cls, rng)}
+        hier, fault = _rand_hier(rng) if rng.random() < 0.8 else rng.choice(POOL)
+        hier = _restyle(hier, rng)
+        yield mk_case(hier, fault, rng.random() < 0.6, _rand_ops(rng, resolve(hier), 12, 4), _rand_cfg(rng))
 
 
 def nontrivial(case, model):
     kinds = [_op(o)[0] for o in case["ops"]]
     moves = any(k in ("setDisabled", "setRun", "enter") for k in kinds)
-    reads = any(k in ("construct", "assign", "validate") for k in kinds)
-    return moves and reads and any(f["validators"] for f in case["cls"]["fields"])
+    reads = any(k in READERS for k in kinds)
+    return moves and reads and any(f["validators"] for c in case["classes"] for f in c["fields"])
+
+
+def _ancestors(hier, k):
+    out = []
+    p = hier["nodes"][k]["parent"]
+    while p is not None:
+        out.append(p)
+        p = hier["nodes"][p]["parent"]
+    return out
 
 
 def dist(case, obs):
@@ -550,21 +689,38 @@ def dist(case, obs):
     steps = obs.get("steps", []) if isinstance(obs, dict) else []
     fired = sum(1 for s in steps if any(e["kind"] == "validator" for e in s["events"]))
     skipped = sum(1 for k, s in zip(kinds, steps)
-                  if k in ("construct", "assign", "validate") and not any(e["kind"] == "validator" for e in s["events"]))
+                  if k in READERS and not any(e["kind"] == "validator" for e in s["events"]))
     cfg = case.get("cfg", {})
+    hier = case["hier"]
+    # an enabled-or-not validate of an ancestor's instance before one of a descendant's, and the other order
+    seen, base_first, sub_first = [], False, False
+    for o in case["ops"]:
+        k, a = _op(o)
+        if k in READERS:
+            anc = _ancestors(hier, a["k"])
+            base_first |= any((k, p) in seen for p in anc)
+            sub_first |= any(kk == k and a["k"] in _ancestors(hier, c) for kk, c in seen)
+            seen.append((k, a["k"]))
+    redeclares = any(nd["parent"] is not None and
+                     {f["name"] for f in nd["own"]} & {f["name"] for f in case["classes"][nd["parent"]]["fields"]}
+                     for nd in hier["nodes"])
     return {
-        "len": len(kinds),
+        "len": min(len(kinds), 13),
         "max_depth": max(d),
         "start": case["start"],
-        "api": "define" if case["cls"]["isDefine"] else "attr.s",
-        "n_fields": len(case["cls"]["fields"]),
+        "api": "define" if hier["isDefine"] else "attr.s",
+        "n_classes": len(hier["nodes"]),
+        "classes_read": len({_op(o)[1]["k"] for o in case["ops"] if _op(o)[0] in READERS}),
+        "same_reader_base_then_sub": base_first,
+        "same_reader_sub_then_base": sub_first,
+        "redeclares": redeclares,
+        "plain_between": any(nd.get("plain") and nd["parent"] is not None for nd in hier["nodes"]),
         "fault": case.get("fault") is not None,
-        "nonbool_args": sum(1 for o in case["ops"] if _op(o)[0] in ("setDisabled", "setRun") and _op(o)[1] in NONBOOL),
+        "nonbool_args": sum(1 for o in case["ops"] if _op(o)[0] in ("setDisabled", "setRun") and _op(o)[1]["a"] in NONBOOL),
         "reader_steps_validated": min(fired, 4),
         "reader_steps_not_validated": min(skipped, 4),
         "exc_kinds": ",".join(sorted({str(s["exc"]) for s in steps})),
         "exit_exc": sum(1 for k in kinds if k == "exitExc"),
-        "split": cfg.get("split"),
         "slots": cfg.get("slots"),
         "build_disabled": cfg.get("buildDisabled"),
         "driver": "with-statements" if cfg.get("realWith") else "enter/exit calls",
@@ -574,8 +730,18 @@ def dist(case, obs):
 def _valid(case):
     if _depths(case["ops"]) is None:
         return False
-    nf = len(case["cls"]["fields"])
-    return all(_op(o)[0] != "assign" or _op(o)[1] < nf for o in case["ops"])
+    cl = case["classes"]
+    for o in case["ops"]:
+        k, a = _op(o)
+        if k in READERS and not (0 <= a["k"] < len(cl)):
+            return False
+        if k == "assign" and not (0 <= a["i"] < len(cl[a["k"]]["fields"])):
+            return False
+    return bool(cl)
+
+
+def _rehier(case, hier):
+    return dict(case, hier=hier, classes=resolve(hier))
 
 
 def shrink(case):
@@ -597,38 +763,45 @@ def shrink(case):
     if not case["start"]:
         yield dict(case, start=True)
     cfg = case.get("cfg", {})
-    base = {"slots": None, "split": 0, "bare": True, "buildDisabled": False, "earlyCm": False,
+    base = {"slots": None, "bare": True, "buildDisabled": False, "earlyCm": False,
             "excKinds": ["valueError"], "via": "attr", "realWith": False}
     for k, v in base.items():
         if cfg.get(k) != v:
             yield dict(case, cfg=dict(cfg, **{k: v}))
-    cls = case["cls"]
-    fs = cls["fields"]
-    # drop the last field when nothing refers to it
-    if len(fs) > 1:
-        last = fs[-1]["name"]
-        used = any(_op(o)[0] == "assign" and _op(o)[1] == len(fs) - 1 for o in ops)
-        if not used and not (case.get("fault") and case["fault"]["field"] == last):
-            yield dict(case, cls=dict(cls, fields=fs[:-1]), cfg=dict(cfg, vstyle=(cfg.get("vstyle") or [])[:len(fs) - 1]))
-    for i, f in enumerate(fs):
-        for k, v in (("conv", False), ("onSet", "unset")):
-            if f[k] != v:
-                yield dict(case, cls=dict(cls, fields=fs[:i] + [dict(f, **{k: v})] + fs[i + 1:]))
-        if f["validators"] > 1 and not (case.get("fault") and case["fault"]["field"] == f["name"]
-                                         and case["fault"]["idx"] >= f["validators"] - 1):
-            yield dict(case, cls=dict(cls, fields=fs[:i] + [dict(f, validators=f["validators"] - 1)] + fs[i + 1:]))
+    hier = case["hier"]
+    nodes = hier["nodes"]
+    # drop the last class when nothing refers to it
+    if len(nodes) > 1 and not any(_op(o)[0] in READERS and _op(o)[1]["k"] == len(nodes) - 1 for o in ops):
+        yield _rehier(case, dict(hier, nodes=nodes[:-1]))
+    if hier["clsOnSet"] != "unset":
+        yield _rehier(case, dict(hier, clsOnSet="unset"))
+    for k, nd in enumerate(nodes):
+        def with_own(own):
+            return _rehier(case, dict(hier, nodes=nodes[:k] + [dict(nd, own=own)] + nodes[k + 1:]))
+        if nd.get("plain"):
+            yield _rehier(case, dict(hier, nodes=nodes[:k] + [dict(nd, plain=False)] + nodes[k + 1:]))
+        for j, f in enumerate(nd["own"]):
+            cand = with_own(nd["own"][:j] + nd["own"][j + 1:])
+            if _valid(cand):
+                yield cand
+            for key, v in (("conv", False), ("onSet", "unset"), ("style", "list")):
+                if f.get(key) != v:
+                    yield with_own(nd["own"][:j] + [dict(f, **{key: v})] + nd["own"][j + 1:])
+            if f["validators"] > 1:
+                yield with_own(nd["own"][:j] + [dict(f, validators=f["validators"] - 1)] + nd["own"][j + 1:])
     for i, o in enumerate(ops):
         k, a = _op(o)
-        if k in ("setDisabled", "setRun") and a in NONBOOL and a != "int1":
+        if k in ("setDisabled", "setRun") and a["a"] in NONBOOL and a["a"] != "int1":
             yield dict(case, ops=ops[:i] + [{k: {"a": "int1"}}] + ops[i + 1:])
 
 
 def neighbours(case, rng):
     for start in (True, False):
         for _ in range(3):
-            yield dict(case, start=start, cfg=_rand_cfg(case["cls"], rng))
-    for cls, fault in POOL:
-        cand = dict(case, cls=cls, fault=fault, cfg=_rand_cfg(cls, rng))
+            yield dict(case, start=start, cfg=_rand_cfg(rng))
+    kinds = [o if isinstance(o, str) else (next(iter(o)) if next(iter(o)) in READERS else o) for o in case["ops"]]
+    for hier, fault in POOL:
+        cand = mk_case(hier, fault, case["start"], _bind(kinds, resolve(hier), rng), _rand_cfg(rng))
         if _valid(cand):
             yield cand
     yield from itertools.islice(shrink(case), 40)
@@ -642,13 +815,18 @@ LEVEL_TEXT = (
     "pairs), C20_restore/C20_restore_observed (every exit, normal or exceptional, of every balanced block in any "
     "history restores switch and saved states of the matching enter; by induction with a stack-frame invariant), "
     "C20_disabled_inside, C20_block_silences_validators, C20_nonbool_rejected_state_unchanged, "
+    "C20_readers_memoryless (what a reader runs depends only on the class of the instance and the switch, not on which "
+    "instances of which classes of the hierarchy were read before), "
     "C20_honoured_construct (via C02_fault_prefix of the initializer model)/_assign/_validate (callbacks run = declarative "
     "list cut after the failing one; validators iff enabled), C20_switch_independence (converters and user hooks "
     "unaffected), C20_assign_validates_iff, C20_enabled_all_fire, C20_matcher_is_dyck (the specification's bracket "
     "counting finds the matching enter), C20_default_hook_documented (T1 table), C20_model_meets_spec; "
     "C20_old_manager_violates: the pre-ee5b683 manager (labelled not-the-model) breaks C20_restore on a nested history "
     "(decide). The model is tied to /repo by a differential correspondence: thorough = all bracket-valid histories of "
-    "length <= 5 over the ten operations from both start positions on a structured class pool plus 120k "
+    "length <= 5 over the ten operations from both start positions on a structured pool of class hierarchies (base, "
+    "subclasses adding / re-declaring validated fields, siblings, plain class in between; every reader names the class "
+    "whose instance it works on; classes fresh per case; validators check they are called for their own class's "
+    "Attribute), reader sweeps over every order of the classes, plus 120k "
     "random histories (length <= 12, depth <= 4, non-bool arguments, getters, random classes); quick = length <= 3 plus "
     "random to the time budget; observed after every operation: get_disabled(), get_run_validators(), returned value, "
     "exception kind, __exit__ result, and the exact sequence of validator/converter/hook callbacks. Only observed, not "
